@@ -368,24 +368,7 @@ func (ex *Exec) runBlock(fr *Frame, b *ssa.BasicBlock) *ssa.BasicBlock {
 			}
 			fr.env[in] = &Closure{Fn: in.Fn.(*ssa.Function), Env: env}
 		case *ssa.MakeSlice:
-			n := ex.sizeArg(fr, ex.get(fr, in.Len), "make len")
-			c := ex.sizeArg(fr, ex.get(fr, in.Cap), "make cap")
-			if n < 0 || c < n {
-				ex.goPanicf(fr, "makeslice: len out of range")
-			}
-			if c > 1<<24 {
-				ex.noteBigAlloc(fr, c)
-			}
-			if c > 1<<16 {
-				panic(unsupported(fmt.Sprintf("make of %d elements", c)))
-			}
-			et := in.Type().Underlying().(*types.Slice).Elem()
-			a := make([]Value, n, c)
-			z := zero(et)
-			for i := range a {
-				a[i] = copyVal(z)
-			}
-			fr.env[in] = Slice{A: a}
+			fr.env[in] = ex.makeSlice(fr, in)
 		case *ssa.MakeMap:
 			mt := in.Type().Underlying().(*types.Map)
 			fr.env[in] = &Map{KT: mt.Key(), VT: mt.Elem()}
@@ -484,6 +467,59 @@ func (ex *Exec) sizeArg(fr *Frame, v Value, what string) int64 {
 	return ex.ConcInt(t, what+" at "+ex.Prog.Fset.Position(ex.posOf(fr)).String())
 }
 
+// makeSlice: a symbolic length is case-split over the values up to the
+// allocation cap; all larger values are represented by one oversized slice
+// (symbolic length, materialised prefix).
+func (ex *Exec) makeSlice(fr *Frame, in *ssa.MakeSlice) Value {
+	et := in.Type().Underlying().(*types.Slice).Elem()
+	lt := ex.get(fr, in.Len).(*term.T)
+	ct := ex.get(fr, in.Cap).(*term.T)
+	mk := func(n, c int64) Slice {
+		a := make([]Value, n, c)
+		z := zero(et)
+		for i := range a {
+			a[i] = copyVal(z)
+		}
+		return Slice{A: a}
+	}
+	if lt.W < 64 {
+		lt = term.SExt(lt, 64)
+	}
+	if ct.W < 64 {
+		ct = term.SExt(ct, 64)
+	}
+	if maxA, ok := ex.Cfg.Bounds["max_alloc"]; ok && !lt.IsConst() {
+		ex.Assert(term.Sle(lt, mkInt(int64(maxAlloc(maxA)))), "allocation size stays within the documented bound", "assert", in.Pos())
+	}
+	if !lt.IsConst() && lt == ct {
+		capN := int64(ex.Cfg.Bounds["alloc_cap"])
+		if capN == 0 {
+			capN = 1024
+		}
+		if ex.Branch(term.Slt(lt, mkInt(0))) {
+			ex.goPanicf(fr, "makeslice: len out of range")
+		}
+		if ex.Branch(term.Slt(mkInt(capN), lt)) {
+			s := mk(capN, capN)
+			s.SymLen = lt
+			return s
+		}
+		n := ex.ConcInt(lt, "make len")
+		return mk(n, n)
+	}
+	n := ex.sizeArg(fr, lt, "make len")
+	c := ex.sizeArg(fr, ct, "make cap")
+	if n < 0 || c < n {
+		ex.goPanicf(fr, "makeslice: len out of range")
+	}
+	if c > 1<<20 {
+		panic(unsupported(fmt.Sprintf("make of %d elements", c)))
+	}
+	return mk(n, c)
+}
+
+func maxAlloc(v int) int { return v }
+
 func (ex *Exec) noteBigAlloc(fr *Frame, n int64) {
 	ex.st.ghost["bigalloc"] = mkInt(n)
 }
@@ -522,6 +558,7 @@ func (ex *Exec) indexAddr(fr *Frame, in *ssa.IndexAddr) Value {
 	var arr []Value
 	switch x := x.(type) {
 	case Slice:
+		x.mustConcrete("index")
 		arr = x.A
 	case *Value:
 		if x == nil {
@@ -593,6 +630,20 @@ func (ex *Exec) sliceOp(fr *Frame, in *ssa.Slice) Value {
 	}
 	switch x := x.(type) {
 	case Slice:
+		if x.SymLen != nil {
+			lo := arg(in.Low, 0)
+			if lo < 0 || lo > int64(len(x.A)) {
+				panic(unsupported("slicing an oversized slice outside its materialised prefix"))
+			}
+			if in.High == nil {
+				return Slice{A: x.A[lo:], SymLen: term.Sub(x.SymLen, mkInt(lo))}
+			}
+			hi := arg(in.High, 0)
+			if hi < lo || hi > int64(len(x.A)) {
+				panic(unsupported("slicing an oversized slice outside its materialised prefix"))
+			}
+			return Slice{A: x.A[lo:hi:hi]}
+		}
 		lo := arg(in.Low, 0)
 		hi := arg(in.High, int64(len(x.A)))
 		mx := arg(in.Max, int64(cap(x.A)))
